@@ -609,7 +609,6 @@ func (a *AddrManager) changeRemark(dbTransaction db.DBTransaction, newRemark str
 			return err
 		}
 	}
-	a.remark = newRemark
 	return nil
 }
 
